@@ -27,7 +27,7 @@ HTML_SYNTAXES = ['html', 'html', 'html', 'xml', 'xsl', 'jsx', 'js', 'vue', 'svel
 INDENT_SYNTAXES = ['pug', 'slim', 'haml']
 STYLE_SYNTAXES = ['css', 'scss', 'sass', 'less', 'stylus', 'sss']
 
-NEWLINES = ['\n', '\n', '\r\n', '\r']
+NEWLINES = ['\n', '\n', '\n', '\r\n', '\r\n', '\r', '\n\n', ' \n', '\u2028', '\r\n\t\r\n']
 INDENTS = ['\t', '  ', '    ', '']
 BASE_INDENTS = ['', '', '  ', '\t', '      ']
 
@@ -76,6 +76,12 @@ class Tree:
             node['cls'].append(pick(rng, PLAIN_CLASSES))
         if not node['name'] and not node['cls']:
             node['cls'].append('c')
+        if self.explicit and maybe(rng, 0.2):
+            # id / class values with explicit fields: they are output once more by comments
+            if maybe(rng, 0.5):
+                node['attrs'].append(('id', 'fields', self.field_value()))
+            else:
+                node['attrs'].append(('class', 'fields', pick(rng, ['item ', '', 'a b ']) + self.field_value()))
         if maybe(rng, 0.45):
             used = set()
             for _ in range(rng.randint(1, 3)):
@@ -299,9 +305,6 @@ def gen_c13(run_seed):
                 op['abbr'], op['c13'] = gen_markup_counted(rng)
             else:
                 op['abbr'], op['c13'] = gen_markup_explicit(rng)
-            if family == 'indent' and 'expect' in op['c13']:
-                # the count model is stated for the HTML formatter only
-                op['c13'] = {'mode': 'auto'}
         if maybe(rng, fault_rate):
             k = pick(rng, ['F3', 'F3', 'F5', 'F1'])
             if k == 'F3':
